@@ -67,6 +67,59 @@ def _visit_expr_id(ix, rep):
                 rep.fail('R-INLINE', f.module.rel, f.qual, 'subspec->node', 'sub-spec arm does not return the node registered under the name', body[0].lineno)
 
 
+def _whole_identifier_names(f):
+    """locals bound to the whole text of the identifier (`x = ctx.Identifier().getText()`), plus names bound to such a name or to a
+    literal (the implicit assertion name 'out')"""
+    out = set()
+    for _ in range(3):
+        for st in ast.walk(f.node):
+            if isinstance(st, ast.Assign) and len(st.targets) == 1 and isinstance(st.targets[0], ast.Name):
+                v = ast.unparse(st.value).replace(' ', '')
+                if v.endswith('.Identifier().getText()') or (isinstance(st.value, ast.Name) and st.value.id in out):
+                    out.add(st.targets[0].id)
+    return out
+
+
+def _table_keys(f, table, store):
+    """key expressions under which `self.<table>` is written (store) or read / tested (not store) in f"""
+    keys = []
+    for x in ast.walk(f.node):
+        if isinstance(x, ast.Subscript) and ast.unparse(x.value) == 'self.%s' % table and isinstance(x.ctx, ast.Store) == store:
+            keys.append(x.slice)
+        if not store and isinstance(x, ast.Compare) and len(x.ops) == 1 and isinstance(x.ops[0], (ast.In, ast.NotIn)) and ast.unparse(x.comparators[0]) == 'self.%s' % table:
+            keys.append(x.left)
+        if not store and isinstance(x, ast.Call) and isinstance(x.func, ast.Attribute) and x.func.attr == 'get' and ast.unparse(x.func.value) == 'self.%s' % table and x.args:
+            keys.append(x.args[0])
+    return keys
+
+
+def _key_agreement(ix, rep):
+    """a reference finds what the definition registered: visitAssertion writes var_subspec_dict under the whole identifier of the assertion,
+    visitExprId has to look a reference up under the whole identifier too (`o.aux` is not `o`)"""
+    ltl, stl = M.parser_visitors(ix)
+    fa, fe = ix.resolve_method(stl, 'visitAssertion'), ix.resolve_method(stl, 'visitExprId')
+    n = 0
+    for table in ('var_subspec_dict', 'const_val_dict'):
+        wk = _table_keys(fa, table, True) if table == 'var_subspec_dict' else []
+        wa = _whole_identifier_names(fa)
+        whole_written = all(isinstance(k, ast.Name) and k.id in wa for k in wk)
+        rk = _table_keys(fe, table, False)
+        we = _whole_identifier_names(fe)
+        if not rk:
+            continue
+        n += 1
+        bad = [k for k in rk if not (isinstance(k, ast.Name) and k.id in we)]
+        if table == 'var_subspec_dict' and not whole_written:
+            rep.fail('R-INLINE', fa.module.rel, fa.qual, 'key:%s:write' % table, 'visitAssertion registers the assertion under `%s`, not under its whole identifier'
+                     % ast.unparse(wk[0])[:40], fa.node.lineno)
+        elif bad:
+            rep.fail('R-INLINE', fe.module.rel, fe.qual, 'key:%s' % table, 'a reference is looked up in %s under `%s`, definitions are registered under the whole identifier: a dotted '
+                     'name (`o.aux`) is not found (or finds the entry of `o`) and the reference becomes a plain variable that nobody feeds' % (table, ast.unparse(bad[0])[:40]), bad[0].lineno)
+        else:
+            rep.ok('R-INLINE', fe.module.rel, fe.qual, 'key:%s' % table, 'looked up under the whole identifier, as registered', fe.node.lineno)
+    return n
+
+
 def _visit_assertion(ix, rep):
     ltl, stl = M.parser_visitors(ix)
     f = ix.resolve_method(stl, 'visitAssertion')
@@ -195,6 +248,17 @@ def _pastifier_fresh(ix, rep):
 def check(ix, rep):
     _visit_expr_id(ix, rep)
     _visit_assertion(ix, rep)
+    from sa.rules import store as _st9
+    rep.floor('writers of ast.specs', _st9.check_spec_forest_writers(ix, rep), 3)
+    # after pastify() too: every assertion is delayed by its own look-ahead (a common delay shifts an output whose sub-specifications look
+    # further ahead than it does, while its inlined form is not shifted)
+    from sa.props import c03 as _c03
+    _pc = ix.find_class('rtamt.pastifier.stl.pastifier', 'StlPastifier')
+    _hc = ix.find_class('rtamt.pastifier.stl.horizon', 'StlHorizon')
+    if _pc is None or _hc is None:
+        raise AnalysisError('pastifier / horizon class vanished')
+    _c03.check_pastify_driver(ix, rep, _pc, _hc)
+    rep.floor('name tables whose reader and writer keys are compared', _key_agreement(ix, rep), 2)
     mons = M.monitors(ix)
     for m in mons:
         if m.mode == 'online' and m.sem == 'Standard':
